@@ -2,9 +2,9 @@ package main
 
 import (
 	"fmt"
-	"os"
 	"go/token"
 	"go/types"
+	"os"
 	"sort"
 	"strings"
 
@@ -103,16 +103,16 @@ type acctSpec struct {
 }
 
 type acctState struct {
-	mem      map[string]aff    // symbolic memory: address -> value
-	ptr      map[string]string // address -> symbolic pointer/other non-int value
-	inserted map[string]bool   // element pointers known to be in a tracked map
-	owner    map[string]string // element pointer -> owner object
-	acct     map[string]aff    // owner -> net change written to the account
-	items    map[string]aff    // owner -> Σ item changes
+	mem       map[string]aff    // symbolic memory: address -> value
+	ptr       map[string]string // address -> symbolic pointer/other non-int value
+	inserted  map[string]bool   // element pointers known to be in a tracked map
+	owner     map[string]string // element pointer -> owner object
+	acct      map[string]aff    // owner -> net change written to the account
+	items     map[string]aff    // owner -> Σ item changes
 	undecided []string
-	events   int
-	regA     map[ssa.Value]aff    // values of loads / lookups, fixed when the instruction executed
-	regS     map[ssa.Value]string
+	events    int
+	regA      map[ssa.Value]aff // values of loads / lookups, fixed when the instruction executed
+	regS      map[ssa.Value]string
 }
 
 func (s *acctState) clone() *acctState {
